@@ -11,6 +11,7 @@ mod eng_writer;
 mod eng_reader;
 mod eng_spec;
 mod eng_layout;
+mod eng_foreign;
 
 use util::Sink;
 
@@ -22,6 +23,7 @@ fn exec_line(engine: &str, line: &str) -> String {
         "reader" => eng_reader::exec(line),
         "spec" => eng_spec::exec(line),
         "layout" => eng_layout::exec(line),
+        "foreign" => eng_foreign::exec(line),
         _ => "BADENGINE".into(),
     }
 }
@@ -49,6 +51,7 @@ fn main() {
                 "reader" => eng_reader::generate(&mut sink, seed, thorough),
                 "spec" => eng_spec::generate(&mut sink, seed, thorough),
                 "layout" => eng_layout::generate(&mut sink, seed, thorough),
+                "foreign" => eng_foreign::generate(&mut sink, seed, thorough),
                 _ => {
                     eprintln!("unknown engine {engine}");
                     std::process::exit(2);
